@@ -36,12 +36,12 @@ ASSUMPTIONS = ['defaults of the enumerated parameters are type-correct for their
                '(the decorator disables that syntax); the same call is still made through text',
                'a method whose first visible parameter is missing or lazy is rejected at registration and is not part of the space']
 BOUNDS = {
-    'quick': 'singles: 500 parameter lists (<= 2 positional from 7 shapes [Any, A, B, Lazy, A?, A=default, C] x 10 extensions '
-             '[*r, **kw, kW optional/required, hidden Engine at 0 / Context at 1 / Engine at 2, combinations]) x 3 kinds x 309 calls, both paths; '
+    'quick': 'singles: parameter lists of <= 2 positional from 7 shapes [Any, A, B, Lazy, A?, A=default, C] x 11 extensions '
+             '[*r, **kw, kW optional/required, kW with **kw, hidden Engine at 0 / Context at 1 / Engine at 2, combinations] x 3 kinds x 309 calls, both paths; '
              'pairs: 48 parameter lists squared (ext/function kinds) x {same, child, grandchild, exclusive} x 165 calls '
              '(text path for the same-layer families); kind mixing: 6 lists squared x 8 kind pairs x 4 layerings; '
              '@no_kwargs: 9 lists, flags (T), (T,T), (T,F), (F,T) x 4 layerings; triples: 7 lists cubed x 5 layerings',
-    'thorough': 'singles: 1427 parameter lists (10 shapes x 16 extensions incl. typed/lazy *r, typed **kw, lazy kW) x 3 kinds x 349 calls '
+    'thorough': 'singles: 10 shapes x 17 extensions (also typed/lazy *r, typed **kw, lazy kW) x 3 kinds x 349 calls '
                 '(constants 1, \'k\', kw); pairs: 156 lists squared x 4 layerings x 205 calls; kind mixing and @no_kwargs on 16 lists; '
                 'triples: 22 lists cubed x 5 layerings',
 }
@@ -87,7 +87,7 @@ def bases(shapes, upto=2):
 
 def extensions(base, tier):
     out = [base, base + (R_ANY,), (H_ENGINE,) + base, base + (KW_ANY,), base + (K_OPT,), base + (K_REQ,),
-           base + (R_ANY, KW_ANY)]
+           base + (R_ANY, KW_ANY), base + (K_OPT, KW_ANY)]
     if len(base) >= 1:
         out.append(base[:1] + (H_CONTEXT,) + base[1:])
         out.append(base[:1] + (H_CONTEXT,) + base[1:] + (R_ANY,))
@@ -237,6 +237,12 @@ def classify(layers, call, path, obs, exp):
     for rel, name in MECHANISMS:
         if obs in (expected(layers, call, rel), expected(layers, call, rel + (M.KEYWORD_UNCHECKED,))):
             return name
+    for _, overloads in layers:
+        for o in overloads:
+            declared = [M.python_spelling(p[0]) for p in o[1] if p[1] in ('pos', 'kwonly')]
+            if any(p[1] == 'varkw' for p in o[1]) and any(k in declared for k, v in call[2]):
+                return ('python-spelling-captured-through-varkw (a keyword that is the python name of a declared parameter is '
+                        'passed on inside **kwargs and python binds it to that parameter, unchecked)')
     part = 'outcome' if obs[0] != exp[0] else 'evaluated-arguments' if obs[1] != exp[1] else 'payload-arguments'
     return 'model-mismatch %s: expected=%s observed=%s path=%s' % (part, outcome_class(exp[0]), outcome_class(obs[0]), path)
 
